@@ -50,7 +50,9 @@ ASSUMPTIONS = [
     "a request made with phase 'execute' includes the 0-size meta requests of the optimisation that compute() runs; they satisfy the same bounds",
     "sync scheduler",
 ]
-EXCLUDE = ("KF-layout-drift-over-shuffle", "KF-minmax-empty", "KF-pad-wide", "KF-tensordot-int-dtype", "KF-argext-ties-axis-none")
+from vf import exclusions as _ex
+
+EXCLUDE = _ex.ALL  # every program-level region of a listed open finding
 
 ELEMWISE = ("neg", "abs", "add_s", "mul_s")
 SHAPE = ("T", "transpose", "copy")
